@@ -511,3 +511,251 @@ def compare_direct(dc, io, mo, at, stats):
             else:
                 compare_aggregate(mt["value"], it, view, stats, out)
     return out
+
+
+# ------------------------------------------------------------------ corpus
+def _row(sec, day, act, af=None, **kw):
+    r = {"sec": sec, "td": day - kw.pop("lag", 0), "sd": day, "act": act, "af": af,
+         "com": None, "cur": None, "rate": None}
+    r.update(kw)
+    return r
+
+
+def corpus():
+    """hand-written histories for the render comparison (pipeline entry)"""
+    D = core.D
+    b = core.BASE_DAY
+    cs = []
+    # affiliates with different balances, a registered one, ties at x.xx5, a loss inside (-0.005, 0)
+    cs.append({"inits": {}, "rows": [
+        _row("FOO", b + 1, "Buy", None, sh=D(10), aps=D(10005, 3)),
+        _row("FOO", b + 2, "Buy", "Spouse", sh=D(3), aps=D(7333, 3), com=D(5, 3)),
+        _row("FOO", b + 3, "Buy", "(R)", sh=D(5), aps=D(20)),
+        _row("FOO", b + 200, "Sell", None, sh=D(4), aps=D(12), com=D(995, 2)),
+        _row("FOO", b + 400, "Sell", "Spouse", sh=D(1), aps=D(7334, 3)),
+        _row("FOO", b + 401, "Sell", "(R)", sh=D(2), aps=D(1)),
+        _row("FOO", b + 600, "Sell", None, sh=D(1), aps=D(10004, 3)),     # gain -0.001
+        _row("FOO", b + 800, "Sell", None, sh=D(5), aps=D(100051, 4)),    # gain +0.0005
+    ]})
+    # superficial losses: partial, forced by the user, not forced, over-applied
+    cs.append({"inits": {}, "rows": [
+        _row("FOO", b + 1, "Buy", None, sh=D(10), aps=D(10)),
+        _row("FOO", b + 100, "Sell", None, sh=D(5), aps=D(5)),
+        _row("FOO", b + 105, "Buy", "Spouse", sh=D(5), aps=D(5)),
+        _row("FOO", b + 110, "Sell", "Spouse", sh=D(4), aps=D(6)),
+        _row("FOO", b + 400, "Sell", None, sh=D(2), aps=D(3), sfl=(D(-1234, 3), True)),
+        _row("FOO", b + 600, "Buy", None, sh=D(1), aps=D(3)),
+        _row("FOO", b + 605, "Sell", None, sh=D(2), aps=D(1)),
+        _row("FOO", b + 606, "Buy", None, sh=D(7), aps=D(1)),
+    ]})
+    cs.append({"inits": {}, "rows": [
+        _row("FOO", b + 1, "Buy", None, sh=D(10), aps=D(10)),
+        _row("FOO", b + 100, "Sell", None, sh=D(10), aps=D(5), sfl=(D(-2000, 2), False)),
+        _row("FOO", b + 102, "Buy", None, sh=D(4), aps=D(5)),
+    ]})
+    # foreign currency with explicit rates, separate commission currency, RoC, SfLA, splits
+    cs.append({"inits": {"FOO": (D(7), D(70005, 3))}, "rows": [
+        _row("FOO", b + 1, "Buy", None, sh=D(10), aps=D(12345, 3), com=D(999, 2), cur="USD", rate=D(13333, 4)),
+        _row("FOO", b + 2, "Buy", None, sh=D(1), aps=D(1), com=D(1), cur="EUR", rate=D(15, 1), ccur="USD", crate=D(125, 2)),
+        _row("FOO", b + 3, "Buy", None, sh=D(1), aps=D(1), com=D(2), cur="USD", rate=D(1), ccur="CAD"),
+        _row("FOO", b + 50, "RoC", None, aps=D(5, 3), cur="usd", rate=D(12, 1)),
+        _row("FOO", b + 60, "RoC", None, aps=D(0)),
+        _row("FOO", b + 70, "SfLA", None, sh=D(3), aps=D(1005, 3)),
+        _row("FOO", b + 80, "Split", None, split=("3", "2")),
+        _row("FOO", b + 90, "Split", "Default", split=("1.0", "3.0")),
+        _row("FOO", b + 300, "Sell", None, sh=D(25, 1), aps=D(99999, 4), com=D(1, 2), cur="USD", rate=D(130005, 5)),
+        _row("FOO", b + 700, "Sell", None, sh=D(7), aps=D(0), cur="gbp", rate=D(17, 1)),
+    ]})
+    # a rejected security next to a good one, several years, totals that cancel
+    cs.append({"inits": {}, "rows": [
+        _row("BAR", b + 1, "Buy", None, sh=D(2), aps=D(3)),
+        _row("BAR", b + 300, "Sell", None, sh=D(5), aps=D(3)),
+        _row("FOO", b + 1, "Buy", None, sh=D(4), aps=D(10)),
+        _row("FOO", b + 200, "Sell", None, sh=D(2), aps=D(11)),
+        _row("FOO", b + 600, "Sell", None, sh=D(2), aps=D(9)),
+        _row("QUX", b + 10, "Buy", "Zed", sh=D(1), aps=D(1, 3)),
+        _row("QUX", b + 400, "Sell", "Zed", sh=D(1), aps=D(6, 3)),
+        _row("QUX", b + 800, "Buy", "B", sh=D(100), aps=D(1)),
+        _row("QUX", b + 900, "RoC", "B", aps=D(2)),
+    ]})
+    # global split over several holders, registered-only security (no gains at all)
+    cs.append({"inits": {}, "rows": [
+        _row("FOO", b + 1, "Buy", None, sh=D(3), aps=D(9)),
+        _row("FOO", b + 2, "Buy", "Spouse (R)", sh=D(6), aps=D(9)),
+        _row("FOO", b + 90, "Split", None, split=("2", "1")),
+        _row("FOO", b + 200, "Sell", "Spouse (R)", sh=D(12), aps=D(1)),
+        _row("BAR", b + 5, "Buy", "(R)", sh=D(1), aps=D(1)),
+        _row("BAR", b + 500, "Sell", "(R)", sh=D(1), aps=D(2)),
+    ]})
+    return cs
+
+
+def direct_corpus():
+    """deltas the ledger never produces, rendered directly"""
+    b = core.BASE_DAY
+    st0 = ["0", "0", "0"]
+
+    def sell(pre, post, gain, sfl=None, spec=None, **kw):
+        d = {"td": b, "sd": b + 2, "af": kw.pop("af", ""), "act": "Sell", "memo": "", "sh": "3", "aps": "2.005",
+             "com": "0", "cur": "CAD", "rate": "1", "ccur": None, "crate": None, "spec": spec,
+             "pre": pre, "post": post, "gain": gain, "sfl": sfl}
+        d.update(kw)
+        return d
+    cs = []
+    # sales when the affiliate's own pre-balance is zero but other affiliates hold shares
+    cs.append({"deltas": [sell(["0", "50", "0"], ["0", "47", "0"], "6.015"),
+                          sell(["0", "50", "12"], ["0", "47", "12"], "-0.004"),
+                          sell(["0.0", "0", None], st0, None, af="(R)")],
+               "gains": {"total": "6.011", "years": [[2019, "6.011"]]}})
+    # own balance differs from the all-affiliate balance: the per-share figures use the affiliate's
+    cs.append({"deltas": [sell(["4", "100", "10"], ["1", "97", "2.5"], "-0.005", af="Spouse"),
+                          sell(["4", "4", "10.01"], ["1", "97", "2.5025"], "0.005"),
+                          sell(["3", "100", None], ["0", "97", None], None, af="Spouse (R)")],
+               "gains": {"total": "0", "years": [[2020, "0.005"], [2019, "-0.005"]]}})
+    # superficial loss records: forced / not, over-applied / not, on a later sale without one, on a row that is not a sale
+    cs.append({"deltas": [sell(["10", "10", "100"], ["7", "7", "70"], "-1.5", sfl=["-3.004", "2", "3", True], spec=["-3.004", True]),
+                          sell(["7", "7", "70"], ["4", "4", "40"], "-2"),
+                          sell(["4", "4", "40"], ["1", "1", "10"], "0", sfl=["-0.001", "1.50", "3.0", False], spec=["-0.001", False]),
+                          sell(["1", "1", "10"], ["1", "1", "10"], "-1", sfl=["-5", "1", "3", False]),
+                          {"td": b, "sd": b + 3, "af": "", "act": "Buy", "memo": "", "sh": "1", "aps": "1", "com": "0.004", "cur": "USD",
+                           "rate": "1.005", "ccur": None, "crate": None, "pre": st0, "post": ["1", "1", "1.009"], "gain": "-7",
+                           "sfl": ["-5", "1", "3", True]}],
+               "gains": {"total": "-4.5", "years": [[2021, "-0.0049"], [2019, "-4.4951"]]}})
+    # a superficial-loss record on a sale without a capital gain (registered): legend without a suffix
+    cs.append({"deltas": [sell(["5", "5", None], ["2", "2", None], None, sfl=["-1", "1", "3", True], af="(R)")],
+               "gains": {"total": "0", "years": []}})
+    # totals: ties, values inside (-0.005, 0.005), years in descending insertion order
+    cs.append({"deltas": [], "gains": {"total": "-0.001", "years": [[2023, "0.005"], [2021, "-0.005"], [2022, "0.0049"], [2020, "-0.0049"], [2019, "1.995"], [2018, "-1.995"]]}})
+    cs.append({"deltas": [], "gains": {"total": "0", "years": []}})
+    # rows of every kind with a zero post balance (no per-share figure), split rendering
+    cs.append({"deltas": [
+        {"td": b, "sd": b, "af": "", "act": "Split", "memo": "", "post_split": "1", "pre_split": "3", "int_only": True,
+         "pre": ["9", "12", "9.999"], "post": ["3", "6", "9.999"], "gain": None, "sfl": None},
+        {"td": b, "sd": b, "af": "", "act": "Split", "memo": "", "post_split": "3", "pre_split": "7", "int_only": False,
+         "pre": ["0", "0", "0"], "post": ["0", "0", "0"], "gain": None, "sfl": None},
+        {"td": b, "sd": b, "af": "", "act": "RoC", "memo": "", "aps": "0.005", "cur": "USD", "rate": "1.5",
+         "pre": ["3", "3", "9.999"], "post": ["3", "3", "9.9765"], "gain": None, "sfl": None},
+        {"td": b, "sd": b, "af": "", "act": "SfLA", "memo": "", "sh": "3", "aps": "0.335",
+         "pre": ["0", "3", "0"], "post": ["0", "3", "1.005"], "gain": None, "sfl": None}],
+        "gains": {"total": "0", "years": []}})
+    return cs
+
+
+# ------------------------------------------------------------------ the pass of C06
+def check_pass(res, ctx, rs, to_cents_view):
+    """compare every cell of both views of the implementation's tables (rs:
+    results of corecheck.run_cases(..., render=True)) with the render model;
+    then the hand-written corpus, directly rendered deltas and cent texts."""
+    import random
+    import corecheck
+    tier, seed = ctx["tier"], ctx["seed"]
+    rng = random.Random(seed * 7368787 + 606)
+    stats = collections.Counter()
+
+    def classify(mm, full_cell, cents_cell, replay):
+        what = "render model and implementation differ (%s view, table %s, column %s): %s" % (mm["view"], mm["table"], mm["column"], mm["what"])
+        if full_cell is not None and cents_cell is not None and to_cents_view(full_cell) != cents_cell:
+            res.violation("failing-input", "default view cell %r is not the cent-rounded full-precision cell %r; " % (cents_cell, full_cell) + what, replay)
+        else:
+            rp = dict(replay)
+            rp["theorem_or_projection"] = "render cells (Model/Render.v render_table / render_aggregate against render.rs)"
+            res.violation("broken-correspondence", what, rp, found_input=False)
+
+    def impl_cells(tf, tc, mm):
+        try:
+            if mm["row"] is not None and mm["column"] in COLS:
+                c = COLS.index(mm["column"])
+                return tf["rows"][mm["row"]][c], tc["rows"][mm["row"]][c]
+            m = re.match(r"footer\[(\d+)\]", mm["column"])
+            if m:
+                return tf["footer"][int(m.group(1))], tc["footer"][int(m.group(1))]
+        except (IndexError, KeyError, TypeError):
+            pass
+        return None, None
+
+    # 1. pipeline: ledger -> gains -> render, model against implementation
+    extra = corecheck.run_cases(ctx, corpus(), render=True)
+    allrs = list(rs) + extra
+    ms = run_pipeline([r["case"] for r in allrs])
+    for k, (r, m) in enumerate(zip(allrs, ms)):
+        status, out = compare_run(r, m, stats)
+        stats["pipeline:" + status] += 1
+        if k >= len(rs):
+            stats["pipeline:corpus"] += 1
+        rf = r["raw"].get("render_full")
+        if status == "compared" and isinstance(rf, dict) and "secs" in rf:
+            for t in rf["secs"].values():
+                stats["pipeline:tables"] += 1
+                stats["pipeline:tables-with-sfl-note"] += any("SfL =" in n for n in t["notes"])
+                stats["pipeline:tables-with-over-note"] += any("[1]" in n for n in t["notes"])
+                stats["pipeline:tables-with-error"] += bool(t["errors"])
+                stats["pipeline:cells-negative-zero"] += sum(c.startswith("-$0.00") for row in r["raw"]["render_cents"]["secs"].get(t["rows"][0][0], {"rows": []})["rows"] for c in row) if t["rows"] else 0
+        for mm in out[:2]:
+            cf = cc = None
+            if isinstance(rf, dict) and "secs" in rf and mm["table"] in rf["secs"]:
+                cf, cc = impl_cells(rf["secs"][mm["table"]], r["raw"]["render_cents"]["secs"][mm["table"]], mm)
+            classify(mm, cf, cc, {"input": r["hc"]})
+    # 2. deltas rendered directly
+    exe, log = build_harness("render")
+    if exe is None:
+        res.violation("broken-correspondence", "the render harness does not build against the current tree",
+                      {"theorem_or_projection": "harness build (acbh_render)", "log": log[-3000:]}, found_input=False)
+    else:
+        dcs = direct_corpus()
+        ncorp = len(dcs)
+        dcs += [gen_direct(rng) for _ in range(400 if tier == "quick" else 6000)]
+        impl, mods, ats = run_direct(exe, dcs)
+        for k, (dc, io, mo, at) in enumerate(zip(dcs, impl, mods, ats)):
+            stats["direct:cases"] += 1
+            if k < ncorp:
+                stats["direct:corpus"] += 1
+            if isinstance(io.get("cents"), dict) and "rows" in io["cents"]:
+                stats["direct:cells-negative-zero"] += sum(c.startswith("-$0.00") for row in io["cents"]["rows"] for c in row)
+            for mm in compare_direct(dc, io, mo, at, stats)[:2]:
+                cf = cc = None
+                if "rows" in io.get("full", {}) and "rows" in io.get("cents", {}):
+                    cf, cc = impl_cells(io["full"], io["cents"], mm)
+                classify(mm, cf, cc, {"direct_case": dc})
+        # 3. the cent text of a figure
+        vals = ["0", "0.005", "-0.005", "0.0049", "-0.0049", "-0.001", "1.005", "1.0049999", "2.675", "-2.675", "1.5", "2",
+                "0.995", "-0.995", "79228162514264337593543950335", "-7922816251426433759354395.0335"]
+        for _ in range(1500 if tier == "quick" else 20000):
+            sc = rng.choice([0, 1, 2, 3, 3, 4, 6, 10, 20, 28])
+            k = rng.random()
+            if k < 0.3:
+                mnt = rng.randint(-2000, 2000)
+            elif k < 0.55:
+                mnt = rng.randint(-10 ** 8, 10 ** 8)
+            elif k < 0.8 and sc >= 3:
+                mnt = rng.choice([-1, 1]) * (rng.randint(0, 10 ** 6) * 10 + 5) * 10 ** (sc - 3)
+            else:
+                mnt = rng.randint(-2 ** 96 + 1, 2 ** 96 - 1)
+            if abs(mnt) < 2 ** 96:
+                vals.append(core.D(mnt, sc)[0])
+        outs = run_harness(exe, "dollar", [{"v": v} for v in vals])
+        mouts = run_model([[2] + qenc(Fraction(v)) for v in vals], group="render")
+        for v, o, m in zip(vals, outs, mouts):
+            stats["text:figures"] += 1
+            mt = bytes(m[3:]).decode() if m and m[0] == 1 else "<model error>"
+            want = Fraction(v) * 100
+            n = m[1] if len(m) > 1 else None
+            if mt != o.get("text"):
+                res.violation("broken-correspondence", "dollar_precision_str(%s) = %r, model dollar2_text %r" % (v, o.get("text"), mt),
+                              {"theorem_or_projection": "render cells (dollar2_text against dollar_precision_str)", "value": v}, found_input=False)
+            elif n is None or abs(want - n) > Fraction(1, 2) or Fraction(mt) != Fraction(n, 100):
+                res.violation("failing-input", "the cent text %r of %s is not the figure rounded to cents" % (mt, v), {"value": v})
+    cols = {}
+    for k, v in stats.items():
+        if k.startswith("cells:"):
+            _, view, col = k.split(":", 2)
+            cols.setdefault(col, {})[view] = v
+    res.coverage["render_model"] = {
+        "cells_compared_per_column": {c: cols[c] for c in sorted(cols)},
+        "cells_compared": sum(v for k, v in stats.items() if k.startswith("cells:")),
+        "numeric_leaves_compared": {"full": stats["leaves:full"], "cents": stats["leaves:cents"]},
+        "runs": {k: v for k, v in sorted(stats.items()) if not k.startswith("cells:") and not k.startswith("leaves:")},
+        "rule": "every cell of both views of every security table (16 columns, footer, notes, errors) and of the aggregate table is matched against the "
+                "extracted render model: literals (format strings, cent texts of the default view) byte for byte, numeric leaves (full-precision figures, "
+                "share counts, ratios, years) by exact value; pipeline = model ledger -> gains -> render on the same case under rust_decimal rounding; "
+                "direct = render_tx_table_model / render_aggregate_capital_gains called on hand-made and random deltas; text = dollar_precision_str on random decimals",
+    }
